@@ -63,9 +63,13 @@ ActNames == << "SigmoidPlainActivation", "SigmoidReducedActivation", "SigmoidBip
                "SigmoidInverseAbsoluteActivation", "SigmoidLeftShiftedActivation", "SigmoidLeftShiftedSteepenedActivation",
                "SigmoidRightShiftedSteepenedActivation", "TanhActivation", "GaussianBipolarActivation", "GaussianActivation",
                "LinearActivation", "LinearAbsActivation", "LinearClippedActivation", "NullActivation", "SignActivation",
-               "SineActivation", "StepActivation", "MultiplyModuleActivation", "MaxModuleActivation", "MinModuleActivation" >>
-ScalarActs == 1 .. 20
-ModuleActs == 21 .. 23
+               "SineActivation", "StepActivation", "MultiplyModuleActivation", "MaxModuleActivation", "MinModuleActivation",
+               (* 24, 25: types a user registered through the public NodeActivators.Register / RegisterModule; "every registered *)
+               (* activation type" includes them.  Files carry names only, so the type codes the replayer picks do not matter.   *)
+               "VerifUserScalarActivation", "VerifUserModuleActivation" >>
+ScalarActs == (1 .. 20) \cup {24}
+ModuleActs == (21 .. 23) \cup {25}
+UserActs == {24, 25}
 NullAct == 17
 DefaultAct == 4          \* NewNetworkNode: SigmoidSteepenedActivation
 ActName(t) == ActNames[t]
@@ -184,6 +188,23 @@ PopLine(ps, ln) ==
            [] kw = "/*" -> ps
            [] OTHER -> IF ~ps.open THEN [ps EXCEPT !.err = "line outside a genome"] ELSE PutLine(ps, ln, TRUE)
 PopRead(lines) == LET ps == Fold(PopLine, Pop0, lines) IN [gs |-> ps.out, err |-> ps.err]
+
+(* ------------------------------------------------------------------------ *)
+(* 3b. Population.WriteBySpecies (population.go, species.go Species.Write): *)
+(* per species one comment line, then its organisms best fitness first,     *)
+(* each with a comment line, ONE MORE comment line when the organism is a   *)
+(* winner, and its genome.  A comment is a line whose first token is "/*";  *)
+(* the words after it are free text (fitness / error printed with %.3f) and *)
+(* are modelled as one opaque token.                                        *)
+(* sps = Seq(Seq([g, fit, win]))   (fit: rank, distinct within a species)   *)
+(* ------------------------------------------------------------------------ *)
+CommentLine(what) == <<S("/*"), S(what), S("*/")>>
+SortedDesc(orgs) == SortSeq(orgs, LAMBDA a, b : a.fit > b.fit)
+OrgBlock(o) == <<CommentLine("organism")>> \o (IF o.win THEN <<CommentLine("winner")>> ELSE <<>>) \o PlainLines(o.g)
+SpeciesBlock(sp) == <<CommentLine("species")>> \o Flat(Map(SortedDesc(sp), OrgBlock))
+BySpeciesLines(sps) == Flat(Map(sps, SpeciesBlock))
+BySpeciesGenomes(sps) == Flat(Map(sps, LAMBDA sp : Map(SortedDesc(sp), LAMBDA o : o.g)))
+BySpeciesLaw(sps) == PopRead(BySpeciesLines(sps)) = [gs |-> Map(BySpeciesGenomes(sps), NoMods), err |-> ""]
 
 (* ======================================================================== *)
 (* 4. YAML genome: a document of nested maps                                 *)
